@@ -8,6 +8,13 @@ Workloads
            on two links / link drop + reconnect, LE (CoC + enhanced) or BR/EDR (basic, ERTM)
   cut      a link disconnect injected at every HCI-message index of one operation
            (indices enumerated by a dry run of the same operation), then reconnect + reopen
+  wrap     one link carries > 256 signalling commands (open/close/refused-open cycles, CID reuse checked in
+           every cycle), steered by the identifiers seen on the WIRE so that 2-3 simultaneous requests (LE,
+           enhanced, classic, a close among them) straddle the wrap-around of the 8-bit identifier
+  giveup   the caller of an open gives up (task.cancel() or asyncio.wait_for time-out) at every stage of the
+           open against a hand-driven peer that is silent, says "connection pending", or stops half-way
+           through the configuration; later the peer stays quiet, carries on, or refuses; then the CID of the
+           abandoned attempt must be free again and a new open must get it
 """
 from __future__ import annotations
 
@@ -22,14 +29,22 @@ LEVEL = 'exploration'
 RULE = ('seeded operation histories (3-30 ops) on a 3-device rig; non-trivial when the history contains a '
         'close followed by a later open on the same link, or a link drop, or concurrent opens; distinct = '
         'distinct op sequence. cut cases: one per (operation, message index, cutting side), all indices of the '
-        'dry run enumerated')
+        'dry run enumerated. wrap cases: seeded (transport, side, distance of the burst from identifier 255, burst '
+        'composition); non-trivial when the identifier wrapped inside the burst (counted from the wire). giveup cases: '
+        'seeded (channel type, stage, cancel/time-out, late behaviour of the peer) x 1-3 rounds; non-trivial always')
 ASSUMPTIONS = [
     'a table entry for a dead connection handle counts only if non-empty',
     'a refused open (no server on the PSM) must raise and leave the tables unchanged',
 ]
 MIN_EVENTS = {
-    'quick': {'table_comparisons': 12000, 'ops': 4000, 'reopen_after_close': 1000, 'cut_points': 500, 'enhanced_refusals_attempted': 50, 'crossing_closes': 100},
-    'thorough': {'table_comparisons': 60000, 'ops': 30000, 'reopen_after_close': 2000, 'cut_points': 800, 'enhanced_refusals_attempted': 400, 'crossing_closes': 800},
+    'quick': {'table_comparisons': 12000, 'ops': 4000, 'reopen_after_close': 1000, 'cut_points': 500, 'enhanced_refusals_attempted': 50, 'crossing_closes': 100,
+              'wrap_cycles': 2500, 'wrap_bursts': 25, 'wrap_bursts_straddling_the_wrap': 15, 'wrap_links_with_256_commands': 25,
+              'giveup_attempts': 250, 'giveup_stage_silent': 100, 'giveup_stage_pending': 40, 'giveup_stage_connected': 20,
+              'giveup_reopens': 120},
+    'thorough': {'table_comparisons': 60000, 'ops': 30000, 'reopen_after_close': 2000, 'cut_points': 800, 'enhanced_refusals_attempted': 400, 'crossing_closes': 800,
+                 'wrap_cycles': 40000, 'wrap_bursts': 500, 'wrap_bursts_straddling_the_wrap': 300, 'wrap_links_with_256_commands': 280,
+                 'giveup_attempts': 2500, 'giveup_stage_silent': 1000, 'giveup_stage_pending': 400, 'giveup_stage_connected': 200,
+                 'giveup_reopens': 1200},
 }
 CASE_TIMEOUT = 300
 
@@ -45,6 +60,10 @@ def plan(tier, seed):
     n = 400 if tier == 'quick' else 2800
     for i in range(n):
         cases.append({'kind': 'hist', 'seed': seed * 1000003 + i, 'transport': 'le' if i % 4 else 'bredr'})
+    for i in range(32 if tier == 'quick' else 320):
+        cases.append({'kind': 'wrap', 'seed': seed * 1000003 + 60000 + i, 'transport': 'le' if i % 4 else 'bredr', 'tier': tier})
+    for i in range(240 if tier == 'quick' else 2400):
+        cases.append({'kind': 'giveup', 'seed': seed * 1000003 + 61000 + i, 'chan': ('br', 'br', 'le', 'enh')[i % 4]})
     ops = ['le', 'enh2', 'le-close', 'le-close-peer', 'le-drain', 'le-drain1', 'le-drain1-close', 'br', 'br-close',
            'br-close-peer', 'ertm']
     for i, op in enumerate(ops):
@@ -351,6 +370,547 @@ async def hist_case(case, r: R):
 
 
 # -----------------------------------------------------------------------------
+# long histories on one link: the signalling identifier wraps around with requests outstanding
+# -----------------------------------------------------------------------------
+async def wrap_case(case, r: R):
+    """One link carries more than 256 signalling commands (open/close/refused-open cycles, each cycle checked for
+    CID reuse, tables compared every few cycles); the cycles are steered - by reading the identifiers on the WIRE -
+    so that 2-3 requests issued at the same time straddle the wrap-around of the 8-bit identifier. All of them must
+    complete, the tables must be exact afterwards, and the other link of the device is used in between."""
+    from vlib import rig as vrig
+    from vlib import ref_l2cap as rl
+    rng = random.Random(case['seed'])
+    vrig.seed_entropy(case['seed'])
+    tr = case['transport']
+    w = World(rng, r, tr, case['seed'], rng.choice([0, 0, 1]))
+    await w.start()
+    rg = w.rg
+    from_peer = rng.random() < 0.3
+    c0, cx, peer = w.links['a']
+    dev = peer if from_peer else 0
+    handle = (cx if from_peer else c0).handle
+    watch = rl.SigWatch(rg, dev)
+    kind = 'le' if tr == 'le' else 'br'
+    none_kind = 'le-none' if tr == 'le' else 'br-none'
+    # one or two resident channels, so that the tables are never trivially empty
+    for _ in range(rng.randint(0, 2)):
+        for pr in await w.op_open('a', kind, from_peer=rng.random() < 0.5):
+            w.open['a'].append((pr[0], pr[1], kind))
+    wraps = 1 if case.get('tier') != 'thorough' else 2
+    first_cid = None
+    cycles = 0
+    for wrap_no in range(wraps):
+        k = rng.choice([0, 0, 1, 1, 2])
+        burst = rng.choice(['le2', 'le3', 'enh2', 'enh3', 'mix'] if tr == 'le' else ['br2', 'br3', 'brmix'])
+        target = 255 - k
+        guard = 0
+        while True:
+            cur = watch.last_ident.get(handle, 0)
+            remaining = (target - cur) % 255 if cur else target     # identifiers run 1..255, 0 = nothing sent yet
+            if remaining == 0 and watch.commands.get(handle, 0) >= 200 * (wrap_no + 1):
+                break
+            remaining = remaining or 255
+            guard += 1
+            if guard > 600:
+                raise RuntimeError(f'cannot steer the identifier to {target}: stuck at {cur}')
+            cost = 2 if tr == 'le' else 3      # open (+ configure) + close
+            try:
+                if remaining >= cost + (0 if tr == 'le' else 2):
+                    pairs = await w.op_open('a', kind, from_peer=from_peer)
+                    if not pairs:
+                        return
+                    e0, ex = pairs[0]
+                    mine = ex if from_peer else e0
+                    cycles += 1
+                    r.ev('wrap_cycles')
+                    r.ev('oracle_evals')
+                    # the smallest free CID is the same in every cycle: a closed identifier is usable again
+                    if first_cid is None:
+                        first_cid = mine.source_cid
+                    elif mine.source_cid != first_cid:
+                        r.bad(f'tables/cid-not-reused/long-history/{tr}',
+                              f'cycle {cycles}: the new channel got CID {mine.source_cid:#x}, cycle 1 got {first_cid:#x} with the '
+                              f'same channels open; identifier on the wire {cur}')
+                        return
+                    closer = rng.choice([e0, ex])
+                    await vloop.vwait(closer.disconnect())
+                    await rg.quiesce()
+                    w.check_closed_states((e0, ex), ('cycle', cycles))
+                    if closer is not mine and cycles % 7 == 0:
+                        pass
+                else:
+                    # a refused open costs exactly one identifier
+                    conn = cx if from_peer else c0
+                    try:
+                        await vloop.vwait(conn.create_l2cap_channel(spec=w.spec(none_kind)))
+                        r.bad(f'tables/refuse/not-refused/{tr}', 'open on a PSM without server succeeded (long history)')
+                    except vloop.Hang:
+                        raise
+                    except Exception:
+                        r.ev('refusals')
+                    await rg.quiesce()
+            except vloop.Hang:
+                r.bad(f'hang/long-history/{tr}', f'an open/close cycle is pending at T_v after {watch.commands.get(handle, 0)} '
+                                                 f'signalling commands on the link (identifier {cur})')
+                return
+            except Exception as e:
+                r.bad(f'tables/open-failed/long-history/{tr}', f'cycle {cycles} (identifier on the wire {cur}) raised '
+                                                               f'{type(e).__name__}: {e}')
+                return
+            if cycles % 16 == 0:
+                w.compare_tables(('cycle', cycles))
+            if cycles % 40 == 0 and rng.random() < 0.5:
+                # the other link of device 0 lives its own life meanwhile
+                for pr in await w.op_open('b', kind):
+                    w.open['b'].append((pr[0], pr[1], kind))
+        w.compare_tables(('before-burst', wrap_no))
+        # ---- the burst: several requests at once, straddling the wrap-around
+        before_cmds = watch.commands.get(handle, 0)
+        ops = []
+        names = []
+        n = 3 if burst.endswith('3') or burst in ('mix', 'brmix') else 2
+        victim = None
+        for i in range(n):
+            if burst in ('mix', 'brmix') and i == 1 and w.open['a']:
+                # a close of a resident channel in the middle of the opens
+                victim = w.open['a'][0]
+                mine = victim[1] if from_peer else victim[0]
+                ops.append(vloop.vwait(mine.disconnect()))
+                names.append('close')
+            elif burst.startswith('enh') or (burst == 'mix' and i == 2):
+                ops.append(w.op_open('a', 'enh', from_peer=from_peer, count=rng.randint(1, 3)))
+                names.append('enh')
+            else:
+                ops.append(w.op_open('a', kind, from_peer=from_peer))
+                names.append(kind)
+        w.history.append(('burst-across-wrap', burst, k, tuple(names)))
+        res = await asyncio.gather(*ops, return_exceptions=True)
+        await rg.quiesce()
+        r.ev('wrap_bursts')
+        r.ev('wrap_burst_requests', n)
+        for nm, rs in zip(names, res):
+            r.ev('oracle_evals')
+            if isinstance(rs, vloop.Hang):
+                r.bad(f'hang/across-identifier-wrap/{nm}',
+                      f'{nm} issued with {n - 1} other request(s) around the {before_cmds + 1}th signalling command of the link is '
+                      f'pending at T_v; burst={names} last identifier before the burst={target}')
+            elif isinstance(rs, BaseException):
+                r.bad(f'tables/open-failed/across-identifier-wrap/{nm}',
+                      f'{nm} issued with {n - 1} other request(s) around the {before_cmds + 1}th signalling command raised '
+                      f'{type(rs).__name__}: {rs}; burst={names} last identifier before the burst={target}')
+            elif nm == 'close':
+                w.open['a'].remove(victim)
+                w.check_closed_states(victim, 'burst')
+            else:
+                for pr in rs:
+                    w.open['a'].append((pr[0], pr[1], 'le' if nm == 'enh' else nm))
+        seq = watch.sequence.get(handle, [])
+        used = seq[before_cmds:]
+        if any(b <= a for a, b in zip(seq[max(0, before_cmds - 1):], used if before_cmds == 0 else seq[before_cmds:])):
+            # (observed on the wire) the identifier went back to 1 inside the burst or right at its start
+            r.ev('wrap_bursts_straddling_the_wrap')
+        if watch.wraps_with_outstanding:
+            r.ev('wrap_with_requests_outstanding')
+        w.compare_tables(('burst', burst, k))
+        if r.violations:
+            break
+        # close about half of what is open, then go on
+        for pr in list(w.open['a']):
+            if rng.random() < 0.5:
+                try:
+                    await vloop.vwait(rng.choice(pr[:2]).disconnect())
+                except vloop.Hang:
+                    r.bad(f'hang/disconnect/after-identifier-wrap/{tr}', 'disconnect() pending at T_v')
+                    break
+                await rg.quiesce()
+                w.open['a'].remove(pr)
+        first_cid = None
+        w.compare_tables(('after-burst', wrap_no))
+        # a few more cycles with the identifiers that follow the wrap-around
+        for _ in range(6):
+            try:
+                pairs = await w.op_open('a', kind, from_peer=from_peer)
+                if not pairs:
+                    return
+                await vloop.vwait(rng.choice(pairs[0]).disconnect())
+                await rg.quiesce()
+                r.ev('wrap_cycles')
+            except vloop.Hang:
+                r.bad(f'hang/long-history/{tr}', 'an open/close cycle after the identifier wrap-around is pending at T_v')
+                return
+            except Exception as e:
+                r.bad(f'tables/open-failed/long-history/{tr}', f'cycle after the identifier wrap-around raised {type(e).__name__}: {e}')
+                return
+        w.compare_tables(('after-wrap-cycles', wrap_no))
+    r.ev('wrap_commands_on_one_link', watch.commands.get(handle, 0))
+    if watch.commands.get(handle, 0) >= 256:
+        r.ev('wrap_links_with_256_commands')
+    # finally the link goes away: nothing may be left, nobody may wait
+    try:
+        await vloop.vwait(rng.choice([c0, cx]).disconnect())
+    except vloop.Hang:
+        r.bad(f'hang/link-disconnect/{tr}', 'Connection.disconnect pending at T_v after a long history')
+        return
+    await rg.quiesce()
+    olds = list(w.open['a'])
+    w.open['a'] = []
+    del w.links['a']
+    w.compare_tables(('drop-after-long-history',))
+    for pr in olds:
+        w.check_closed_states(pr, 'drop-after-long-history')
+    for where, e in rg.exceptions:
+        r.bad(f'tables/exception-in-stack/{tr}/long-history', f'{where}: {e}')
+    r.sig('wrap', tr, from_peer, tuple(w.history))
+    r.sched.add(rg.schedule_signature)
+    r.evals()
+    r.sample = {'kind': 'wrap', 'transport': tr, 'from_peer': from_peer, 'cycles': cycles,
+                'commands_on_link': watch.commands.get(handle, 0), 'bursts': [h for h in w.history if h[0] == 'burst-across-wrap'],
+                'max_outstanding_at_wrap': watch.max_outstanding_at_wrap}
+
+
+# -----------------------------------------------------------------------------
+# callers that give up: cancel / timeout at every stage of an open against a slow or "pending" peer
+# -----------------------------------------------------------------------------
+GIVEUP_STAGES = {
+    'br': ['silent', 'pending', 'pending', 'connected', 'cfg-rsp-only', 'cfg-req-only'],
+    'le': ['silent'],
+    'enh': ['silent'],
+}
+
+
+class GaveUp(Exception):
+    pass
+
+
+class SlowAcceptor:
+    """Hand-driven acceptor (on vlib.rig.RawPeer) that takes an open up to a chosen stage and then keeps quiet -
+    legal for a peer that waits for an authorisation or is just slow - and later either stays quiet, carries on
+    as if nothing had happened, or refuses. With stall=None it answers at once."""
+
+    def __init__(self, raw, handle, rng):
+        import struct
+        from vlib import ref_l2cap as rl
+        self.st, self.rl = struct, rl
+        self.raw, self.handle, self.rng = raw, handle, rng
+        self.stall = None
+        self.next_cid = 0x60
+        self.ident = 0x80
+        self.cur = None
+        self.reached = False
+        self.pending_first = False
+        self.trace = []
+        raw.handlers.append(self.on_pdu)
+
+    def nid(self):
+        self.ident = self.ident % 255 + 1
+        return self.ident
+
+    def send(self, cid, code, ident, data, what):
+        self.trace.append('raw>' + what)
+        self.raw.send(self.handle, cid, self.rl.sig(code, ident, data))
+
+    def arm(self, stall, pending_first=False):
+        self.stall, self.cur, self.reached, self.pending_first = stall, None, False, pending_first
+
+    # -- classic steps
+    def conn_rsp(self, result, status=0):
+        c = self.cur
+        self.send(1, self.rl.CODE_CONN_RSP, c['ident'], self.st.pack('<HHHH', c['dcid'] if result == 0 else 0, c['scid'], result, status),
+                  f'ConnRsp({result})')
+        if result == 0:
+            c['connected'] = True
+
+    def conf_req(self):
+        c = self.cur
+        c['my_req'] = self.nid()
+        self.send(1, self.rl.CODE_CONF_REQ, c['my_req'], self.st.pack('<HH', c['scid'], 0) + bytes([1, 2]) + self.st.pack('<H', 672), 'ConfReq')
+
+    def conf_rsp(self):
+        c = self.cur
+        if c.get('peer_req') is not None:
+            self.send(1, self.rl.CODE_CONF_RSP, c['peer_req'], self.st.pack('<HHH', c['scid'], 0, 0), 'ConfRsp')
+            c['peer_req'] = None
+            c['answered'] = True
+
+    def carry_on(self):
+        """Finish the open as if the caller were still there."""
+        c = self.cur
+        if c is None:
+            return
+        if c['kind'] == 'br':
+            if not c.get('connected'):
+                self.conn_rsp(0)
+            if not c.get('my_req'):
+                self.conf_req()
+            self.conf_rsp()
+        elif c['kind'] == 'le':
+            self.send(5, self.rl.CODE_LE_COC_RSP, c['ident'], self.st.pack('<HHHHH', c['dcid'], 512, 64, 5, 0), 'LeCocRsp')
+        else:
+            self.send(5, self.rl.CODE_ECOC_RSP, c['ident'], self.st.pack('<HHHH', 512, 64, 5, 0) +
+                      b''.join(self.st.pack('<H', c['dcid'] + i) for i in range(len(c['scids']))), 'EcocRsp')
+
+    def refuse(self):
+        c = self.cur
+        if c is None:
+            return
+        if c['kind'] == 'br':
+            self.conn_rsp(4)
+        elif c['kind'] == 'le':
+            self.send(5, self.rl.CODE_LE_COC_RSP, c['ident'], self.st.pack('<HHHHH', 0, 0, 0, 0, 4), 'LeCocRsp(refused)')
+        else:
+            self.send(5, self.rl.CODE_ECOC_RSP, c['ident'], self.st.pack('<HHHH', 0, 0, 0, 4), 'EcocRsp(refused)')
+
+    def on_pdu(self, handle, cid, payload):
+        rl, st = self.rl, self.st
+        if handle != self.handle or cid not in (1, 5):
+            return
+        for code, ident, data in rl.parse_signalling(payload):
+            if code == rl.CODE_CONN_REQ:
+                psm, scid = st.unpack_from('<HH', data, 0)
+                self.trace.append('bumble>ConnReq')
+                self.cur = dict(kind='br', ident=ident, scid=scid, dcid=self.next_cid)
+                self.next_cid += 1
+                if self.stall == 'silent':
+                    self.reached = True
+                    continue
+                if self.stall == 'pending' or self.pending_first:
+                    self.conn_rsp(1, self.rng.choice([0, 1, 2]))
+                    if self.stall == 'pending':
+                        self.reached = True
+                        continue
+                self.conn_rsp(0)
+                if self.stall in (None, 'cfg-req-only'):
+                    self.conf_req()
+            elif code == rl.CODE_CONF_REQ and self.cur:
+                self.trace.append('bumble>ConfReq')
+                self.cur['peer_req'] = ident
+                if self.stall == 'connected':
+                    self.reached = True
+                elif self.stall == 'cfg-req-only':
+                    self.reached = self.reached or bool(self.cur.get('acked'))
+                else:
+                    self.conf_rsp()
+                    if self.stall == 'cfg-rsp-only':
+                        self.reached = True
+            elif code == rl.CODE_CONF_RSP and self.cur:
+                self.trace.append('bumble>ConfRsp')
+                self.cur['acked'] = True
+                if self.stall == 'cfg-req-only' and self.cur.get('peer_req') is not None:
+                    self.reached = True
+            elif code == rl.CODE_LE_COC_REQ:
+                psm, scid = st.unpack_from('<HH', data, 0)
+                self.trace.append('bumble>LeCocReq')
+                self.cur = dict(kind='le', ident=ident, scid=scid, dcid=self.next_cid)
+                self.next_cid += 1
+                if self.stall == 'silent':
+                    self.reached = True
+                else:
+                    self.carry_on()
+            elif code == rl.CODE_ECOC_REQ:
+                n = (len(data) - 8) // 2
+                self.trace.append('bumble>EcocReq')
+                self.cur = dict(kind='enh', ident=ident, scids=list(st.unpack_from(f'<{n}H', data, 8)), dcid=self.next_cid)
+                self.next_cid += n
+                if self.stall == 'silent':
+                    self.reached = True
+                else:
+                    self.carry_on()
+            elif code == rl.CODE_DISC_REQ:
+                dcid, scid = st.unpack_from('<HH', data, 0)
+                self.trace.append('bumble>DiscReq')
+                self.send(cid, rl.CODE_DISC_RSP, ident, st.pack('<HH', dcid, scid), 'DiscRsp')
+            elif code == rl.CODE_INFO_REQ:
+                self.send(cid, rl.CODE_INFO_RSP, ident, st.pack('<HH', st.unpack_from('<H', data, 0)[0], 1), 'InfoRsp')
+
+
+async def giveup_case(case, r: R):
+    from bumble import l2cap
+    from vlib import rig as vrig
+    rng = random.Random(case['seed'])
+    vrig.seed_entropy(case['seed'])
+    kind = case['chan']
+    tr = 'bredr' if kind == 'br' else 'le'
+    rg = vrig.Rig(2, seed=case['seed'], max_delay=rng.choice([0, 0, 1, 3]), classic=tr == 'bredr')
+    await rg.power_on()
+    if tr == 'bredr':
+        c0, c1 = await rg.connect_classic(0, 1)
+    elif rng.random() < 0.5:
+        c0, c1 = await rg.connect_le(0, 1)
+    else:
+        c1, c0 = await rg.connect_le(1, 0)
+    await rg.quiesce()
+    raw = vrig.RawPeer(rg, 1)
+    raw.take()
+    acc = SlowAcceptor(raw, c1.handle, rng)
+    mgr = rg.devices[0].l2cap_channel_manager
+    held = []          # channels the application holds open
+    hist = []
+
+    def spec():
+        if kind == 'br':
+            return l2cap.ClassicChannelSpec(psm=PSM_BR)
+        return l2cap.LeCreditBasedChannelSpec(psm=PSM_LE, max_credits=8)
+
+    def create(count=1):
+        if kind == 'enh':
+            return mgr.create_enhanced_credit_based_channels(c0, spec(), count)
+        return c0.create_l2cap_channel(spec=spec())
+
+    def free_cid():
+        used = {ch.source_cid for ch in held}
+        return next(c for c in range(0x40, 0x100) if c not in used)
+
+    def tables(after, stage):
+        own = sorted(mgr.channels.get(c0.handle, {}).keys())
+        states = {cid: getattr(ch.state, 'name', ch.state) for cid, ch in mgr.channels.get(c0.handle, {}).items()}
+        want = sorted(ch.source_cid for ch in held)
+        r.ev('table_comparisons')
+        r.ev('oracle_evals')
+        ok = True
+        if own != want:
+            what = 'stale' if set(own) - set(want) else 'missing'
+            r.bad(f'tables/channels/{what}/{after}/{kind}/{stage}',
+                  f'channels={states}, the application holds {[hex(c) for c in want]}; history={hist}; peer trace={acc.trace[-8:]}')
+            ok = False
+        if tr == 'le':
+            pc = sorted(mgr.le_coc_channels.get(c0.handle, {}).keys())
+            wpc = sorted(ch.destination_cid for ch in held)
+            if pc != wpc:
+                r.bad(f'tables/le_coc_channels/{"stale" if set(pc) - set(wpc) else "missing"}/{after}/{kind}/{stage}',
+                      f'le_coc_channels={pc}, expected {wpc}; history={hist}')
+                ok = False
+            if mgr.le_coc_requests:
+                r.bad(f'tables/le_coc_requests/stale/{after}/{kind}/{stage}', f'le_coc_requests={list(mgr.le_coc_requests)}; history={hist}')
+                ok = False
+            if any(mgr.pending_credit_based_connections.values()):
+                r.bad(f'tables/pending_credit_based_connections/stale/{after}/{kind}/{stage}',
+                      f'{ {h: list(v) for h, v in mgr.pending_credit_based_connections.items()} }; history={hist}')
+                ok = False
+        return ok
+
+    async def open_prompt(why, stage, expect_cid=None):
+        acc.arm(None, pending_first=kind == 'br' and rng.random() < 0.3)
+        try:
+            res = await vloop.vwait(create())
+        except vloop.Hang:
+            r.bad(f'hang/open/{why}/{kind}/{stage}', f'open against a prompt peer pending at T_v; history={hist}')
+            return None
+        except Exception as e:
+            r.bad(f'tables/open-failed/{why}/{kind}/{stage}', f'{type(e).__name__}: {e}; history={hist}; peer trace={acc.trace[-8:]}')
+            return None
+        ch = res[0] if isinstance(res, list) else res
+        await rg.quiesce()
+        r.ev('oracle_evals')
+        if expect_cid is not None and ch.source_cid != expect_cid:
+            r.bad(f'tables/cid-not-reused/{why}/{kind}/{stage}',
+                  f'the smallest free CID is {expect_cid:#x} but the new channel got {ch.source_cid:#x}; history={hist}')
+        held.append(ch)
+        return ch
+
+    # a first, ordinary use; sometimes closed again, so that the CID at stake is one of a CLOSED channel
+    if rng.random() < 0.6:
+        ch = await open_prompt('first', 'none')
+        if ch is None:
+            return
+        if rng.random() < 0.6:
+            await vloop.vwait(ch.disconnect())
+            held.remove(ch)
+            await rg.quiesce()
+        tables('first-use', 'none')
+    for rnd in range(rng.randint(1, 3)):
+        stage = rng.choice(GIVEUP_STAGES[kind])
+        how = rng.choice(['cancel', 'timeout', 'timeout'])
+        late = rng.choice(['none', 'carry-on', 'carry-on', 'refuse'])
+        if late == 'refuse' and stage not in ('silent', 'pending'):
+            late = 'none'
+        hist.append((stage, how, late))
+        cid_at_stake = free_cid()
+        acc.arm(stage)
+        count = rng.randint(1, 3) if kind == 'enh' else 1
+        async def impatient(aw):
+            # (vloop.vwait reads a TimeoutError as "pending at T_v": give the caller's own time-out another name)
+            try:
+                return await asyncio.wait_for(aw, 5.0)
+            except asyncio.TimeoutError:
+                raise GaveUp() from None
+
+        if how == 'cancel':
+            task = asyncio.ensure_future(create(count))
+        else:
+            task = asyncio.ensure_future(impatient(create(count)))
+        try:
+            for _ in range(50):
+                await rg.quiesce()
+                if acc.reached:
+                    break
+        except vloop.Hang:
+            r.bad(f'hang/giveup-harness/{kind}', 'no quiescence while the open is pending')
+            return
+        if not acc.reached or task.done():
+            # the stage was not reached: harness or stack trouble, never a silent pass
+            raise RuntimeError(f'stage {stage} not reached (task done={task.done()}); trace={acc.trace}')
+        r.ev('giveup_attempts')
+        r.ev(f'giveup_stage_{stage}')
+        r.ev(f'giveup_by_{how}')
+        if how == 'cancel':
+            task.cancel()
+        else:
+            await asyncio.sleep(6.0)
+        outcome = 'returned'
+        try:
+            await vloop.vwait(task, 60)
+        except vloop.Hang:
+            r.bad(f'hang/abandoned-open/{kind}/{stage}', f'the caller gave up ({how}) but its open is still pending; history={hist}')
+            return
+        except (asyncio.CancelledError, GaveUp):
+            outcome = 'gave-up'
+        except Exception as e:
+            outcome = f'raised {type(e).__name__}'
+        r.ev('oracle_evals')
+        if outcome == 'returned':
+            raise RuntimeError(f'open returned although the peer never completed it; trace={acc.trace}')
+        await rg.quiesce()
+        ok = tables('after-abandoned-open', stage)
+        # the peer, later
+        if late == 'carry-on':
+            acc.carry_on()
+        elif late == 'refuse':
+            acc.refuse()
+        await rg.quiesce()
+        await asyncio.sleep(1.0)
+        await rg.quiesce()
+        if ok and late != 'none':
+            r.ev('giveup_late_answers')
+            tables(f'after-abandoned-open/late-{late}', stage)
+        for where, e in rg.exceptions:
+            r.bad(f'tables/exception-in-stack/after-abandoned-open/{kind}/{stage}', f'{where}: {e}; history={hist}')
+        if r.violations:
+            return
+        # the CID of the abandoned attempt is usable again, at once
+        ch = await open_prompt('after-abandoned-open', stage, expect_cid=cid_at_stake)
+        if ch is None:
+            return
+        r.ev('reopen_after_close')
+        r.ev('giveup_reopens')
+        tables('reopen-after-abandoned-open', stage)
+        if rng.random() < 0.6:
+            try:
+                await vloop.vwait(ch.disconnect())
+            except vloop.Hang:
+                r.bad(f'hang/disconnect/after-abandoned-open/{kind}', 'disconnect() pending at T_v')
+                return
+            held.remove(ch)
+            await rg.quiesce()
+            tables('close-after-abandoned-open', stage)
+    for where, e in rg.exceptions:
+        r.bad(f'tables/exception-in-stack/after-abandoned-open/{kind}', f'{where}: {e}; history={hist}')
+    r.sig('giveup', kind, tuple(hist))
+    r.sched.add(rg.schedule_signature)
+    r.evals()
+    r.sample = {'kind': 'giveup', 'channel': kind, 'history': [list(h) for h in hist], 'peer_trace': acc.trace[:30]}
+
+
+# -----------------------------------------------------------------------------
 async def cut_scenario(case, r: R, cut_at, dry):
     """Runs: setup, (prepare), operation with a link drop at HCI message index cut_at.
     Returns number of HCI messages the operation took (dry run)."""
@@ -462,6 +1022,10 @@ async def cut_scenario(case, r: R, cut_at, dry):
 def run_case(case, r: R):
     if case['kind'] == 'hist':
         return hist_case(case, r)
+    if case['kind'] == 'wrap':
+        return wrap_case(case, r)
+    if case['kind'] == 'giveup':
+        return giveup_case(case, r)
     # cut: dry run, then one fresh loop per cut index
     dry_r = R({})
     n, _ = vloop.run(cut_scenario(case, dry_r, None, True))
@@ -479,6 +1043,9 @@ def run_case(case, r: R):
 LEVEL_TEXT = ('Set model of open channels compared with the ChannelManager tables of all three devices after every '
               'operation of ~140 (quick) / ~2800 (thorough) random multi-link histories on LE and BR/EDR, plus a link '
               'drop injected at every HCI-message index of each channel operation followed by reconnect and reopen; '
+              'plus links that carry more than 256 signalling commands with simultaneous requests across the identifier '
+              'wrap-around, plus opens abandoned by their caller (cancel / time-out) at every stage against a slow, '
+              '"pending" or half-configuring hand-driven peer, followed by a reopen that must get the same CID; '
               'every awaited call bounded by 300 virtual seconds. Exploration of histories, enumeration of cut points '
               'of the sampled operations; not a proof.')
 LEVEL_NOTE = ('Trusted: the set model in checks/c09.py, rig taps/delay pipes, virtual-time loop. Channel identity is '
